@@ -768,6 +768,10 @@ func (fv *FV) libMethod(st *State, call *ast.CallExpr, fn *types.Func, recvExpr 
 		case "Store":
 			v := fv.eval(st, call.Args[0])
 			v = fv.convertTo(st, v, atomicElem(cur.S, ret, info.TypeOf(call.Args[0])))
+			if cur.S == "Any" && v.S != "Any" {
+				// atomic.Value holds an interface value
+				v = fv.convertTo(st, v, types.NewInterfaceType(nil, nil))
+			}
 			fv.locSet(st, l, v)
 			return nil, true
 		case "Swap":
